@@ -14,11 +14,18 @@ def gen_runs(rng, dtype, vclass="small", maxlen=20, style=None, length=None):
     L = length or rng.randint(1, maxlen)
     if style == "single":
         L = length or 1
-    one = lambda: gen.values(rng, dtype if dtype != "float16" else "float32", 1, vclass)[0]
+    if vclass == "close":
+        # neighbouring values that np.isclose would call equal: nearby large numbers, tiny magnitudes
+        fam = rng.choice([[1.7e9, 1.7e9 + 1, 1.7e9 + 2], [1000.0, 1000.001, 1000.002], [1e-9, 2e-9, 0.0, -1e-9], [5.0, 5.0 + 1e-7, 5.0 - 1e-7]])
+        one = lambda: rng.choice(fam)
+        if np.dtype(dtype).kind != "f":
+            vclass = "small"
+    if vclass != "close":
+        one = lambda: gen.values(rng, dtype if dtype != "float16" else "float32", 1, vclass)[0]
     if style == "allsame":
         out = [one()] * L
     elif style == "alldiff":
-        out = gen.values(rng, dtype if dtype != "float16" else "float32", L, vclass).tolist()
+        out = gen.values(rng, dtype if dtype != "float16" else "float32", L, vclass).tolist() if vclass != "close" else [one() for _ in range(L)]
     else:
         out = []
         while len(out) < L:
